@@ -236,6 +236,14 @@ def check(ctx):
             ctx.ob("E3", "%s no cancel() of a handle that already fired" % cq, False, where=where(e), function=e.func,
                    construct="%s/fired-handle/%s/%s" % (ent.func.qual, ".".join(loc), short(e.func)),
                    msg="%s leaves its fired handle in %s and %s cancels it: AlreadyCalled escapes" % (short(ent.func.qual), ".".join(loc), short(e.func)))
+        seen_ul = set()
+        for tr, e, loc, tr2, e2 in hd.unstarted_loops():
+            if (e.func, loc) in seen_ul or not (True):
+                continue
+            seen_ul.add((e.func, loc))
+            ctx.ob("E3", "%s no periodic call is stored without being started (%s)" % (cq, tr.label()), False, where=where(e), function=e.func,
+                   construct="%s/loop-created-not-started/%s" % (e.func, ".".join(loc)),
+                   msg="%s creates the periodic call stored in %s without starting it; %s (%s) finds it not None and calls stop() on a loop that is not running: LoopingCall.stop() asserts - %s" % (tr.label(), ".".join(loc), tr2.label(), where(e2), 'an AssertionError escapes from connectionLost (reached from dataReceived() or a timer when the library aborts the connection)'))
         for tr, e, loc, tr2, e2 in hd.cancelled_kept():
             ctx.ob("E3", "%s no cancel() of a handle that was cancelled before (%s)" % (cq, tr.label()), False, where=where(e), function=e.func,
                    construct="%s/cancelled-handle-kept/%s" % (e.func, ".".join(loc)),
